@@ -245,7 +245,7 @@ def run(R):
     for name in mine:
         ctor = ctors[name]
         nflag = len({t.split('?')[0] for _, t in ctor.fields if '?' in t})
-        subsets = list(range(1 << nflag)) if 0 < nflag <= 6 and not quick else [None]
+        subsets = list(range(1 << nflag)) if 0 < nflag <= (4 if quick else 6) else [None]      # every subset of the optional fields
         cases = [(None, i) for i in range(per)] + ([(s, 0) for s in subsets] if subsets != [None] else [])
         for subset, k in cases:
             auto = (k % 2 == 0)
